@@ -112,6 +112,28 @@ class View(Obj):
         raise Panics('index out of bounds')
 
 
+_INT_TY = {'u8': (8, False), 'u16': (16, False), 'u32': (32, False), 'u64': (64, False), 'u128': (128, False), 'usize': (64, False),
+           'i8': (8, True), 'i16': (16, True), 'i32': (32, True), 'i64': (64, True), 'i128': (128, True), 'isize': (64, True)}
+
+
+def int_ty(t):
+    return _INT_TY.get((t or '').replace('&', '').replace('mut ', '').strip())
+
+
+def wrap_int(v, ty):
+    """two's-complement value of v in integer type ty"""
+    w, signed = ty
+    v &= (1 << w) - 1
+    if signed and v >> (w - 1):
+        v -= 1 << w
+    return v
+
+
+def in_range(v, ty):
+    w, signed = ty
+    return (-(1 << (w - 1)) <= v < (1 << (w - 1))) if signed else (0 <= v < (1 << w))
+
+
 def _hashable(k):
     if isinstance(k, Cell):
         k = k.get()
@@ -186,6 +208,7 @@ class Interp:
         self.facts = facts        # when given, calls of functions of the analysed crate are interpreted from their HIR (if `inline(key)` allows it)
         self.inline = inline
         self.depth = 0
+        self.copy_types = set()      # ADTs passed by value are copied at calls (set by the user for Copy types)
 
     def _format_args(self, b, env):
         """a `format_args!` expansion evaluates to its text (arguments printed with str(); only plain `{}` placeholders)"""
@@ -227,6 +250,9 @@ class Interp:
             raise NoEval('arity of %s' % key)
         env = {}
         for p, a in zip(f['params'], argvals):
+            if isinstance(a, dict) and '__struct__' in a and not (p.get('ty') or '&').startswith('&') and self.facts is not None \
+                    and a['__struct__'] in self.copy_types:
+                a = deep_clone(a)        # a Copy value passed by value: the callee works on its own copy
             if not self.bind(p, a, env):
                 raise NoEval('parameter pattern of %s' % key)
         self.depth += 1
@@ -245,7 +271,7 @@ class Interp:
         cands = []
         for im in self.facts.get('impls', []):
             t = im.get('trait') or ''
-            if not t.startswith('std::ops::' + trait):
+            if not (t == 'std::ops::' + trait or t.startswith('std::ops::' + trait + '<')):
                 continue
             arg = t[len('std::ops::' + trait):]
             arg = arg[1:-1] if arg.startswith('<') else im['self'].replace('&', '').strip()
@@ -388,12 +414,34 @@ class Interp:
         if items is not None:
             return [self.ev(x, env) for x in items]
         if k == 'Cast':
-            return self.ev(e['e'], env)
+            v_ = self.ev(e['e'], env)
+            v_ = v_.get() if isinstance(v_, Cell) else v_
+            ty_ = int_ty(e.get('ty'))
+            if ty_ is not None and isinstance(v_, bool):
+                return int(v_)
+            if ty_ is not None and isinstance(v_, int):
+                return wrap_int(v_, ty_)
+            if ty_ is not None and isinstance(v_, float):
+                raise NoEval('float to integer cast')
+            if (e.get('ty') or '') in ('f32', 'f64') and isinstance(v_, int) and not isinstance(v_, bool):
+                return float(v_)
+            return v_
         if k == 'Unary':
             v = self.ev(e['e'], env)
+            v = v.get() if isinstance(v, Cell) else v
+            ty_ = int_ty(e.get('ty'))
+            if isinstance(v, dict) and '__struct__' in v and e['op'] in ('Neg', 'Not'):
+                k_ = self._impl_method(v['__struct__'], 'neg' if e['op'] == 'Neg' else 'not', 'std::ops::')
+                if k_ is None:
+                    raise NoEval('operator %s on %s' % (e['op'], v['__struct__']))
+                return self.local_call(k_, [v])
             if e['op'] == 'Not':
+                if ty_ is not None and isinstance(v, int) and not isinstance(v, bool):
+                    return wrap_int(~v, ty_)
                 return not v
             if e['op'] == 'Neg':
+                if ty_ is not None and isinstance(v, int) and not isinstance(v, bool) and not in_range(-v, ty_):
+                    raise Panics('attempt to negate with overflow')
                 return -v
         if k == 'Binary':
             op = e['op']
@@ -404,6 +452,15 @@ class Interp:
             a, b = self.ev(e['l'], env), self.ev(e['r'], env)
             a = a.get() if isinstance(a, Cell) else a
             b = b.get() if isinstance(b, Cell) else b
+            if isinstance(a, dict) and '__struct__' in a and op in ('Lt', 'Le', 'Gt', 'Ge'):
+                k_ = self._impl_method(a['__struct__'], 'partial_cmp', 'std::cmp::PartialOrd')
+                if k_ is None:
+                    raise NoEval('comparison of %s' % a['__struct__'])
+                o_ = self.local_call(k_, [a, b])
+                if not (_is_opt(o_) and o_ != NONE and isinstance(o_[1], tuple) and 'Ordering::' in str(o_[1][1])):
+                    raise NoEval('partial_cmp returned %r' % (o_,))
+                c_ = {'Less': -1, 'Equal': 0, 'Greater': 1}[o_[1][1].rsplit('::', 1)[-1]]
+                return {'Lt': c_ < 0, 'Le': c_ <= 0, 'Gt': c_ > 0, 'Ge': c_ >= 0}[op]
             if isinstance(a, dict) and '__struct__' in a and op in ('Add', 'Sub', 'Mul'):
                 k_ = self._op_impl(op, e['l'].get('ty'), e['r'].get('ty'))
                 if k_ is None:
@@ -412,12 +469,24 @@ class Interp:
             try:
                 if op == 'Sub' and isinstance(a, int) and isinstance(b, int) and a < b and 'usize' in (e.get('ty') or ''):
                     raise NoEval('usize underflow')
+                ty_ = int_ty(e.get('ty'))
                 if op in ('BitXor', 'BitAnd', 'BitOr', 'Shl', 'Shr'):
                     if isinstance(a, bool) and isinstance(b, bool):
                         return {'BitXor': a != b, 'BitAnd': a and b, 'BitOr': a or b}[op]
                     if isinstance(a, int) and isinstance(b, int):
-                        return {'BitXor': a ^ b, 'BitAnd': a & b, 'BitOr': a | b, 'Shl': a << b, 'Shr': a >> b}[op]
+                        if op in ('Shl', 'Shr') and ty_ is not None and not (0 <= b < ty_[0]):
+                            raise Panics('attempt to shift with overflow')
+                        if op in ('Shl', 'Shr') and not (0 <= b < 4096):
+                            raise Panics('attempt to shift with overflow')
+                        r_ = (a ^ b) if op == 'BitXor' else (a & b) if op == 'BitAnd' else (a | b) if op == 'BitOr' else (a << b) if op == 'Shl' else (a >> b)
+                        return wrap_int(r_, ty_) if (ty_ is not None and op == 'Shl') else r_
                     raise NoEval('binary %s' % op)
+                if ty_ is not None and op in ('Add', 'Sub', 'Mul') and isinstance(a, int) and isinstance(b, int) and not isinstance(a, bool) and not isinstance(b, bool) \
+                        and ty_ != _INT_TY['usize']:
+                    r_ = {'Add': a + b, 'Sub': a - b, 'Mul': a * b}[op]
+                    if not in_range(r_, ty_):
+                        raise Panics('arithmetic overflow in %s' % (e.get('ty'),))
+                    return r_
                 return {'Add': lambda: a + b, 'Sub': lambda: a - b, 'Mul': lambda: a * b, 'Div': lambda: a // b, 'Rem': lambda: a % b,
                         'Eq': lambda: a == b, 'Ne': lambda: a != b, 'Lt': lambda: a < b, 'Le': lambda: a <= b, 'Gt': lambda: a > b, 'Ge': lambda: a >= b}[op]()
             except (KeyError, TypeError, ZeroDivisionError):
@@ -554,6 +623,10 @@ class Interp:
                 return int(v_)
         if c.endswith(('panic_fmt', 'begin_panic', 'panic_display', 'panic_explicit', 'assert_failed', 'panic_nounwind', 'unreachable_display', 'panic_str')) or c in ('core::panicking::panic', 'std::rt::panic_fmt'):
             raise Panics('explicit panic / failed assertion')
+        if c.endswith('mem::size_of') and not e['args']:
+            m_ = re.search(r'size_of::<([a-z0-9]+)>', (e['fun'].get('ty') or ''))
+            if m_ and int_ty(m_.group(1)):
+                return int_ty(m_.group(1))[0] // 8
         if c.endswith('mem::swap') and len(e['args']) == 2:
             a_, b_ = self.ev(e['args'][0], env), self.ev(e['args'][1], env)
             a_ = a_.get() if isinstance(a_, Cell) else a_
@@ -870,6 +943,18 @@ class Interp:
                     i, j = A(0), A(1)
                     recv[i], recv[j] = recv[j], recv[i]
                     return None
+        if isinstance(recv, tuple) and len(recv) == 2 and recv[0] == 'const' and 'Ordering::' in str(recv[1]):
+            o_ = {'Less': -1, 'Equal': 0, 'Greater': 1}.get(recv[1].rsplit('::', 1)[-1])
+            pre_ = recv[1].rsplit('::', 1)[0]
+            if o_ is not None:
+                if nm == 'reverse' and not args:
+                    return ('const', pre_ + '::' + {-1: 'Greater', 0: 'Equal', 1: 'Less'}[o_])
+                if nm in ('is_lt', 'is_le', 'is_gt', 'is_ge', 'is_eq', 'is_ne') and not args:
+                    return {'is_lt': o_ < 0, 'is_le': o_ <= 0, 'is_gt': o_ > 0, 'is_ge': o_ >= 0, 'is_eq': o_ == 0, 'is_ne': o_ != 0}[nm]
+                if nm == 'then' and len(args) == 1:
+                    return recv if o_ != 0 else A()
+                if nm == 'then_with' and len(args) == 1:
+                    return recv if o_ != 0 else A()()
         if isinstance(recv, str):
             if nm in ('push_str', 'push') and len(args) == 1:
                 a_ = A()
@@ -892,6 +977,44 @@ class Interp:
             if nm == 'to_ascii_uppercase':
                 return recv.upper()
         if isinstance(recv, int) and not isinstance(recv, bool):
+            ty_ = int_ty(hir.strip(e['recv']).get('ty') or e['recv'].get('ty'))
+            if ty_ is not None:
+                w_, sg_ = ty_
+                u_ = recv & ((1 << w_) - 1)
+                if nm == 'leading_zeros' and not args:
+                    return w_ - u_.bit_length()
+                if nm == 'trailing_zeros' and not args:
+                    return w_ if u_ == 0 else (u_ & -u_).bit_length() - 1
+                if nm == 'count_ones' and not args:
+                    return bin(u_).count('1')
+                if nm in ('wrapping_shl', 'wrapping_shr') and len(args) == 1:
+                    k_ = A() % w_
+                    return wrap_int(u_ << k_, ty_) if nm == 'wrapping_shl' else wrap_int((u_ >> k_) if not sg_ else (recv >> k_), ty_)
+                if nm in ('wrapping_add', 'wrapping_sub', 'wrapping_mul', 'wrapping_neg'):
+                    b_ = A() if args else 0
+                    return wrap_int({'wrapping_add': recv + b_, 'wrapping_sub': recv - b_, 'wrapping_mul': recv * b_, 'wrapping_neg': -recv}[nm], ty_)
+                if nm in ('checked_add', 'checked_sub', 'checked_mul') and len(args) == 1:
+                    b_ = A()
+                    r_ = {'checked_add': recv + b_, 'checked_sub': recv - b_, 'checked_mul': recv * b_}[nm]
+                    return some(r_) if in_range(r_, ty_) else NONE
+                if nm in ('saturating_add', 'saturating_mul') and len(args) == 1:
+                    b_ = A()
+                    r_ = recv + b_ if nm == 'saturating_add' else recv * b_
+                    lo_, hi_ = (-(1 << (w_ - 1)), (1 << (w_ - 1)) - 1) if sg_ else (0, (1 << w_) - 1)
+                    return max(lo_, min(hi_, r_))
+                if nm in ('overflowing_add', 'overflowing_sub') and len(args) == 1:
+                    b_ = A()
+                    r_ = recv + b_ if nm == 'overflowing_add' else recv - b_
+                    return (wrap_int(r_, ty_), not in_range(r_, ty_))
+            if nm == 'is_negative' and not args:
+                return recv < 0
+            if nm == 'is_positive' and not args:
+                return recv > 0
+            if nm == 'signum' and not args:
+                return (recv > 0) - (recv < 0)
+            if nm == 'cmp' and len(args) == 1:
+                b_ = A()
+                return ('const', 'std::cmp::Ordering::' + ('Less' if recv < b_ else 'Greater' if recv > b_ else 'Equal'))
             if nm == 'is_zero' and not args:
                 return recv == 0
             if nm in ('min', 'max') and args:
@@ -957,6 +1080,9 @@ class Interp:
             if s.get('init') is None:
                 return None
             v = self.ev(s['init'], env)
+            if isinstance(v, dict) and '__struct__' in v and hir.strip(s['init']).get('k') in ('Path', 'Field', 'Index', 'Unary') and s['init'].get('k') != 'AddrOf' \
+                    and not (s['init'].get('ty') or '').startswith('&'):
+                v = deep_clone(v)        # a copy / move out of a place: the new binding does not alias the old one
             ok = self.bind(s['pat'], v, env)
             if not ok:
                 if s.get('els'):
@@ -979,9 +1105,19 @@ class Interp:
                     return None
             f = {'AddAssign': lambda a, b: a + b, 'SubAssign': lambda a, b: a - b, 'MulAssign': lambda a, b: a * b,
                  'BitXorAssign': lambda a, b: (a != b) if isinstance(a, bool) else a ^ b, 'BitAndAssign': lambda a, b: (a and b) if isinstance(a, bool) else a & b,
-                 'BitOrAssign': lambda a, b: (a or b) if isinstance(a, bool) else a | b, 'DivAssign': lambda a, b: a // b, 'RemAssign': lambda a, b: a % b}.get(s['op'])
+                 'BitOrAssign': lambda a, b: (a or b) if isinstance(a, bool) else a | b, 'DivAssign': lambda a, b: a // b, 'RemAssign': lambda a, b: a % b,
+                 'ShlAssign': lambda a, b: a << b, 'ShrAssign': lambda a, b: a >> b}.get(s['op'])
             if not f:
                 raise NoEval(s['op'])
+            ty_ = int_ty(s['l'].get('ty'))
+            if ty_ is not None and ty_ != _INT_TY['usize'] and s['op'] in ('AddAssign', 'SubAssign', 'MulAssign', 'ShlAssign'):
+                f0 = f
+
+                def f(a, b, _f0=f0, _ty=ty_, _t=s['l'].get('ty')):
+                    r_ = _f0(a, b)
+                    if isinstance(r_, int) and not isinstance(r_, bool) and not in_range(r_, _ty):
+                        raise Panics('arithmetic overflow in %s' % _t)
+                    return r_
             self.place_set(s['l'], self.ev(s['r'], env), env, f)
             return None
         if k == 'For':
